@@ -1,8 +1,89 @@
-/- line-protocol handlers for C14 (stub: not built yet) -/
+/- line-protocol handlers for C14 (finite-group tables, partitions, tableaux) -/
 import Driver.Loop
+import NumqiModel.FinGroup
+import NumqiModel.Young
 
 namespace Numqi.Driver.C14
+open Numqi Numqi.FinGroup Numqi.Young
 
-def handle (_args : List String) : String := "bad-op"
+/-- `"3,2,1"` ↦ `[3,2,1]` -/
+def parseShape? (s : String) : Option (List Nat) :=
+  if s = "" then none else (s.splitOn ",").mapM String.toNat?
+
+/-- the constructor named `kind` at size `n`, with the code's `assert` guards -/
+def tableFor (kind : String) (n : Nat) : Option (Except String Table) :=
+  match kind with
+  | "sym" => some (if n ≥ 2 then .ok (symTable n) else .error "error:assert")
+  | "alt" => some (if n ≥ 2 then .ok (altTable n) else .error "error:assert")
+  | "dih" => some (if n > 2 then .ok (dihTable n) else .error "error:assert")
+  | "cyc" => some (if n ≥ 2 then .ok (cycTable n) else .error "error:assert")
+  | "mul" => some (if n ≥ 3 then .ok (mulTable n) else .error "error:assert")
+  | "klein" => some (.ok kleinTable)
+  | "quat" => some (.ok quatTable)
+  | _ => none
+
+def tabStr (t : List (List Nat)) : String := "|".intercalate (t.map Young.rowStr)
+
+def handle (args : List String) : String :=
+  match args with
+  | ["table", kind, n] => Id.run do
+      let some n := n.toNat? | return "bad-op"
+      match tableFor kind n with
+      | none => return "bad-op"
+      | some (.error e) => return e
+      | some (.ok T) => return tableStr T
+  | ["isgroup", kind, n] => Id.run do
+      let some n := n.toNat? | return "bad-op"
+      match tableFor kind n with
+      | none => return "bad-op"
+      | some (.error e) => return e
+      | some (.ok T) => return s!"{T.length} {if isGroupTableB T T.length then 1 else 0}"
+  | ["leftreg", kind, n] => Id.run do
+      let some n := n.toNat? | return "bad-op"
+      match tableFor kind n with
+      | none => return "bad-op"
+      | some (.error e) => return e
+      | some (.ok T) =>
+        let ones := leftRegOnes T
+        if ones.all fun g => g.all fun rs => rs.length == 1 then
+          return tableStr (ones.map fun g => g.map fun rs => rs.headD 0)
+        else return "not-permutation-matrices"
+  | ["numirrep", n] => Id.run do
+      let some n := n.toNat? | return "bad-op"
+      if n < 1 then return "error:assert"
+      return toString (numIrrep n)
+  | ["numirrepfull", n] => Id.run do
+      let some n := n.toNat? | return "bad-op"
+      if n < 1 then return "error:assert"
+      return rowsStr (numIrrepFull n)
+  | ["young", n] => Id.run do
+      let some n := n.toNat? | return "bad-op"
+      if n < 1 then return "error:assert"
+      return rowsStr (youngDiagram n)
+  | ["hook", s] => Id.run do
+      let some s := parseShape? s | return "bad-op"
+      if !checkShape s then return "error:assert"
+      return toString (hookLength s)
+  | ["transpose", s] => Id.run do
+      let some s := parseShape? s | return "bad-op"
+      if !checkShape s then return "error:assert"
+      return Young.rowStr (transpose s)
+  | ["mask", s] => Id.run do
+      let some s := parseShape? s | return "bad-op"
+      if !checkShape s then return "error:assert"
+      return rowsStr (mask s)
+  | ["tableaux", s] => Id.run do
+      let some s := parseShape? s | return "bad-op"
+      if !checkShape s then return "error:assert"
+      return ";".intercalate ((allTableaux s).map tabStr)
+  | ["tabok", s] => Id.run do
+      let some s := parseShape? s | return "bad-op"
+      if !checkShape s then return "error:assert"
+      return if tableauxOK s then "1" else "0"
+  | ["sytcount", s] => Id.run do
+      let some s := parseShape? s | return "bad-op"
+      if !checkShape s then return "error:assert"
+      return toString (sytCount s.sum s)
+  | _ => "bad-op"
 
 end Numqi.Driver.C14
